@@ -240,7 +240,8 @@ def main(argv=None):
                 sh.corpus_results[os.path.basename(fn)] = sig
             # 2. exhaustively enumerated sub-spaces
             if hasattr(mod, 'exhaustive'):
-                soft = t0 + cfg['soft_s'] if cfg.get('soft_s') else None
+                # the enumerated part may use at most `exhaustive_share` of the soft budget, so that the generated search always runs
+                soft = t0 + cfg['soft_s'] * float(cfg.get('exhaustive_share', 0.5)) if cfg.get('soft_s') else None
                 exhaustive_complete = True
                 for desc in mod.exhaustive(a.tier, a.shard, a.nshards):
                     if soft and time.time() > soft:
